@@ -26,7 +26,13 @@ EXPLANATION = (
     "table lists; the net encoder drops exactly the keys starting with '_'; the decoder registry has an arm for every "
     "class the encoder writes a signature for (pandapipesNet, MultiNet, serialisable classes, component classes); "
     "MODULE_CHANGES targets exist; member nets of a MultiNet are converted individually. (R15.3) every column that "
-    "convert_format renames to is a column of the component's get_component_input. Not decided: equality of a loaded "
+    "convert_format renames to is a column of the component's get_component_input. (R15.4) loading runs "
+    "convert_format on every file, so for a net of the current format it must be the identity: every store into the "
+    "net that precedes its `format_version >= current` return (with the helper steps inlined) is guarded by the "
+    "*absence* of the key it sets (`k not in net`, `not hasattr(net, k)`, `net.get(k) is None`), never by a test on the "
+    "value, and add_default_components is called without overwrite. (R15.5) a to_dict that copies private attributes "
+    "out of a library object (scipy's interp1d.__dict__) converts them to JSON-native values explicitly (.item(), "
+    ".tolist(), float() ...) because private state has no type contract. Not decided: equality of a loaded "
     "net with the original (runtime; pandapower's encoder/decoder are trusted).")
 ASSUMPTIONS = ["pandapower's PPJSONEncoder/PPJSONDecoder round-trip JSON-native values, numpy arrays, pandas objects and registered classes",
                "user-defined classes are outside the tree"]
